@@ -12,6 +12,8 @@ CONSTANTS KemSet, KdfSet, AeadSet, ModeSet,
           Vals,          \* "small": concrete strings over {00, 61} (collision search)
                          \* "leaf" : named leaves of assorted lengths (replay)
           Perturb,       \* set of perturbation kinds offered to the receiver ("none" = matching)
+          Impost,        \* TRUE: after the honest sender, an impostor sender "i" may set up too (C08)
+          HistLen,       \* print behaviours when hist has this many steps (generation runs)
           Ordered        \* TRUE: calls come in canonical order (cuts interleavings)
 
 (******************************* keys **************************************)
@@ -83,24 +85,35 @@ Variants(p) ==
 
 \* senders that try to impersonate: other identity pair, public half only, non-authenticated mode
 Impostors(p) ==
-    IF p.mode \in AuthModes
-    THEN {[p EXCEPT !.skS = KP("S2", p.suite[1]).sk, !.pkS = KP("S2", p.suite[1]).pk],
-          [p EXCEPT !.skS = KP("S2", p.suite[1]).sk]}           \* knows only pkS
-    ELSE {}
+    LET q == [p EXCEPT !.rng = Rng("E3", p.suite[1])] IN        \* its own ephemeral randomness
+    (IF p.mode \in AuthModes
+     THEN {[q EXCEPT !.skS = KP("S2", p.suite[1]).sk, !.pkS = KP("S2", p.suite[1]).pk],
+           [q EXCEPT !.skS = KP("S2", p.suite[1]).sk],           \* knows only the public half pkS
+           [q EXCEPT !.mode = p.mode - 2, !.skS = <<>>, !.pkS = <<>>]}   \* non-authenticated mode
+     ELSE {})
+    \cup (IF p.mode \in PskModes /\ p.psk # <<>>                 \* does not know the PSK
+         THEN {[q EXCEPT !.psk = v] : v \in PskVals \ {p.psk, <<>>}} ELSE {})
 
 MC_SetupSMenu(cx) ==
-    IF "s" \in DOMAIN cx THEN {} ELSE {[c |-> "s", p |-> p] : p \in SenderParams}
+    IF "s" \notin DOMAIN cx THEN {[c |-> "s", p |-> p] : p \in SenderParams}
+    ELSE IF Impost /\ "i" \notin DOMAIN cx /\ "r" \notin DOMAIN cx
+         THEN {[c |-> "i", p |-> p] : p \in Impostors(cx["s"].origin)}
+         ELSE {}
+
+\* the receiver the honest sender "s" would match, handed the impostor's encapsulated key instead
+VictimOf(sp, ip) == [Matching(sp) EXCEPT !.enc = GenKeyPair(sp.suite[1], ip.rng).pk]
 
 MC_SetupRMenu(cx) ==
     IF "s" \notin DOMAIN cx \/ "r" \in DOMAIN cx THEN {}
     ELSE {[c |-> "r", p |-> v] : v \in UNION {Variants(cx["s"].origin)[k] : k \in Perturb}}
+         \cup (IF "i" \in DOMAIN cx THEN {[c |-> "r", p |-> VictimOf(cx["s"].origin, cx["i"].origin)]} ELSE {})
 
 PtOfN(n)  == Leaf("pt" \o ToString(n), <<29, 0, 1, 16, 17>>[(n % 5) + 1])
 AadOfN(n) == Leaf("aad" \o ToString(n), <<7, 0, 16, 1, 20>>[(n % 5) + 1])
 MC_PtMenu(n)  == {PtOfN(n)}
 MC_AadMenu(n) == {AadOfN(n)}
 
-MC_DeliveryMenu == {[k |-> "msg", s |-> "s", i |-> i, j |-> 0, n |-> 0] : i \in 1..MaxSeals}
+MC_DeliveryMenu(snt) == {[k |-> "msg", s |-> "s", i |-> i, j |-> 0, n |-> 0] : i \in 1..MaxSeals}
 
 MC_ExportMenu == {<<<<>>, 32>>, <<Leaf("ectx", 11), 32>>, <<Lit(<<0>>), 16>>}
 
@@ -142,6 +155,6 @@ Rank(op) == CASE op = "init" -> 0 [] op = "setup_s" -> 1 [] op = "setup_r" -> 2 
               [] op = "open" -> 4 [] op = "export" -> 5 [] OTHER -> 6
 InOrder == ~Ordered \/ Rank(last.op) <= Rank(last'.op)
 
-PrintHist == (RecordHist /\ ~ENABLED Next) =>
+PrintHist == (RecordHist /\ Len(hist) = HistLen) =>
                 PrintT(ToJson([pro |-> Prologue(ctx["s"].suite[1]), hist |-> hist]))
 =============================================================================
